@@ -64,6 +64,8 @@ func rmDriver(args []string) error {
 		return rmGate(args[1:])
 	case "io":
 		return rmIO(args[1:])
+	case "logstorm":
+		return rmLogStorm(args[1:])
 	}
 	return fmt.Errorf("rm hist|gate|io")
 }
@@ -406,6 +408,89 @@ func rmIO(args []string) error {
 		wg.Wait()
 		access.VerifTxnEnd = nil
 		if atomic.LoadInt32(&stop) != 0 {
+			iotw.Close()
+			os.Exit(3)
+		}
+	}
+	return iotw.Close()
+}
+
+// rm logstorm <iotrace.ndjson> <windows> <gomaxprocs>: bulk writers against a slow log device.  Six goroutines rewrite
+// all rows of their own table (about 230 KB of log records per statement), so that the log buffer (516 KB) fills
+// several times per round while a log write is in flight: exercises the "buffer full" exits of AppendLogRecord under
+// concurrency (spec/LogBuffer).
+func rmLogStorm(args []string) error {
+	iotw, err := trace.New(args[0])
+	if err != nil {
+		return err
+	}
+	windows, _ := strconv.Atoi(args[1])
+	procs, _ := strconv.Atoi(args[2])
+	runtime.GOMAXPROCS(procs)
+	rng := rand.New(rand.NewSource(envSeed()))
+	pays := []string{strings.Repeat("a", 900), strings.Repeat("b", 880), strings.Repeat("c", 910)}
+	for w := 0; w < windows; w++ {
+		dbCounter++
+		heap := map[int]bool{}
+		delay := time.Duration(20+40*(w%3)) * time.Millisecond
+		iotw.Emit(map[string]interface{}{"ev": "Reset", "logDelayUs": int(delay / time.Microsecond)})
+		samehada.VerifWrapDisk = func(d disk.DiskManager, dbName string) disk.DiskManager {
+			rec := iorec.NewRec(d)
+			rec.Hook = ioHook(iotw, heap)
+			rec.Concurrent = true
+			rec.LogDelay = delay
+			return rec
+		}
+		e, pm := eng.Open(fmt.Sprintf("vrmls%d", dbCounter), 16000, false)
+		samehada.VerifWrapDisk = nil
+		if e == nil {
+			return fmt.Errorf("open: %s", pm)
+		}
+		const ntab, nrows = 6, 120
+		for t := 0; t < ntab; t++ {
+			e.Exec(fmt.Sprintf("CREATE TABLE ls%d(k int, p varchar(1000));", t))
+			for k := 0; k < nrows; k++ {
+				e.Exec(fmt.Sprintf("INSERT INTO ls%d(k, p) VALUES (%d, '%s');", t, k, pays[0]))
+			}
+		}
+		var wg sync.WaitGroup
+		var fails int32
+		for g := 0; g < ntab; g++ {
+			wg.Add(1)
+			seed := rng.Int63()
+			go func(g int, seed int64) {
+				defer wg.Done()
+				for i := 0; i < 6 && atomic.LoadInt32(&fails) == 0; i++ {
+					sql := fmt.Sprintf("UPDATE ls%d SET p = '%s' WHERE k >= 0;", g, pays[(i+1)%3])
+					done := make(chan string, 1)
+					go func() {
+						defer func() {
+							if x := recover(); x != nil {
+								done <- "panic:" + shortSQL(fmt.Sprint(x))
+							}
+						}()
+						err, _ := e.DB.ExecuteSQL(sql)
+						if err != nil {
+							done <- "err:" + err.Error()
+						} else {
+							done <- "ok"
+						}
+					}()
+					var res string
+					select {
+					case res = <-done:
+					case <-time.After(90 * time.Second):
+						res = "stuck"
+					}
+					if res != "ok" {
+						atomic.AddInt32(&fails, 1)
+						iotw.Emit(map[string]interface{}{"ev": "IoFail", "res": res, "sql": shortSQL(sql)})
+					}
+				}
+			}(g, seed)
+		}
+		wg.Wait()
+		if atomic.LoadInt32(&fails) != 0 {
 			iotw.Close()
 			os.Exit(3)
 		}
